@@ -298,8 +298,21 @@ func ruleBB11(r *Report, ctors []bbCtor) {
 // differences removes material; those boxes stay valid.)
 func ruleBB13(ctx *Ctx, r *Report) {
 	n := 0
+	type setter struct {
+		im   sdfImpl
+		name string
+	}
+	var setters []setter
 	for _, im := range sdfImplementers(ctx) {
-		set := methodOf(ctx, im.t, "SetMin")
+		// SetMin installs a blend; SetExtrude installs another mapping of the profile (a twist
+		// turns it, a scale stretches it) under a box computed for the plain extrusion
+		for _, nm := range []string{"SetMin", "SetExtrude"} {
+			setters = append(setters, setter{im, nm})
+		}
+	}
+	for _, sp := range setters {
+		im := sp.im
+		set := methodOf(ctx, im.t, sp.name)
 		bbm := methodOf(ctx, im.t, "BoundingBox")
 		if set == nil || len(set.Blocks) == 0 || bbm == nil {
 			continue
@@ -309,7 +322,9 @@ func ruleBB13(ctx *Ctx, r *Report) {
 			ts := t.String()
 			return strings.HasSuffix(ts, "sdf.Box2") || strings.HasSuffix(ts, "sdf.Box3")
 		}
-		isMinFn := func(t types.Type) bool { return strings.HasSuffix(t.String(), "sdf.MinFunc") }
+		isMinFn := func(t types.Type) bool {
+			return strings.HasSuffix(t.String(), "sdf.MinFunc") || strings.HasSuffix(t.String(), "sdf.ExtrudeFunc")
+		}
 		// (a) SetMin, or a module function it calls, writes a box-typed field (or part of one)
 		writesBox := false
 		seen := map[*ssa.Function]bool{}
@@ -357,8 +372,11 @@ func ruleBB13(ctx *Ctx, r *Report) {
 				}
 			})
 		}
-		r.check("BB-13", "("+typeShort(im.t)+").SetMin", set.Pos(), writesBox || readsBlend,
-			"a blend function goes below the minimum (poly(a, a, k) = a − k/4), so installing one adds material outside the hull of the operand boxes: SetMin must widen the stored box or BoundingBox must account for the function; here SetMin only stores it")
+		why := "a blend function goes below the minimum (poly(a, a, k) = a − k/4), so installing one adds material outside the hull of the operand boxes: SetMin must widen the stored box or BoundingBox must account for the function; here SetMin only stores it"
+		if sp.name == "SetExtrude" {
+			why = "an extrusion function maps the query point before the profile is evaluated (TwistExtrude turns it, ScaleExtrude stretches it), so installing one moves material outside the box of the plain extrusion: SetExtrude must recompute the stored box or BoundingBox must account for the function; here SetExtrude only stores it"
+		}
+		r.check("BB-13", "("+typeShort(im.t)+")."+sp.name, set.Pos(), writesBox || readsBlend, why)
 	}
 	r.floor("BB-13", 4)
 }
